@@ -207,6 +207,24 @@ example : Tw.Packet7.chunkHeaderVitalPack { h := { flags := 1, size := 48 }, seq
 
 end V7
 
+/-- Tie: the literals and constants the writer models depend on (the two 2048-byte `ArrayVec`s of the 0.6
+`write_impl`, the one of 0.7, the `0xff` connless padding, flag/control/token constants). -/
+theorem tie_writer_literals :
+    Tw.Gen.Packet6.lits_write_impl = [2048, 2048, 0, 0, 0] ∧ Tw.Gen.Packet7.lits_write_impl = [2048, 0, 0, 0] ∧
+    Tw.Gen.Packet6.bytelits_write_connless_packet = [255] ∧
+    Tw.Gen.Packet6.lits_control_write = [0, 0, 0] ∧ Tw.Gen.Packet7.lits_control_write = [0, 0, 0, 1, 0] ∧
+    Tw.Gen.Packet6.lits_write_chunk_impl = [0, 0, 0, 0] ∧ Tw.Gen.Packet7.lits_write_chunk_impl = [0, 0, 0, 0] ∧
+    Tw.Gen.Packet6.CTRLMSG_TOKEN_MAGIC = [84, 75, 69, 78] ∧ Tw.Gen.Packet7.TOKEN_NONE = [255, 255, 255, 255] ∧
+    (Tw.Gen.Packet6.PACKETFLAG_CONTROL, Tw.Gen.Packet6.PACKETFLAG_CONNLESS, Tw.Gen.Packet6.PACKETFLAG_REQUEST_RESEND,
+      Tw.Gen.Packet6.PACKETFLAG_COMPRESSION) = (1, 2, 4, 8) ∧
+    (Tw.Gen.Packet7.PACKETFLAG_CONTROL, Tw.Gen.Packet7.PACKETFLAG_REQUEST_RESEND, Tw.Gen.Packet7.PACKETFLAG_COMPRESSION,
+      Tw.Gen.Packet7.PACKETFLAG_CONNLESS) = (1, 2, 4, 8) ∧
+    (Tw.Gen.Packet6.CHUNKFLAG_VITAL, Tw.Gen.Packet6.CHUNKFLAG_RESEND, Tw.Gen.Packet7.CHUNKFLAG_VITAL,
+      Tw.Gen.Packet7.CHUNKFLAG_RESEND) = (1, 2, 1, 2) ∧
+    (Tw.Gen.Packet6.MAX_PAYLOAD, Tw.Gen.Packet7.MAX_PAYLOAD, Tw.Gen.Packet6.CTRLMSG_CLOSE_REASON_LENGTH,
+      Tw.Gen.Packet7.CTRLMSG_CLOSE_REASON_LENGTH, Tw.Gen.Packet7.CONNLESS_VERSION) = (1390, 1390, 127, 127, 1) := by
+  decide
+
 /-! ## chunk list ↔ chunk iterator -/
 
 /-- **0.6**: a list of chunks (each shorter than 1024 bytes, sequence numbers below 1024) serialised
